@@ -102,8 +102,8 @@ Print Assumptions positions_pointwise.
    rebuilds every cell at its position with its value), cells again reporting their own positions *)
 Theorem save_reopen_grid : forall nr nc ops,
   let t := run (new_table nr nc) ops in
-  0 <= nr -> 0 <= nc -> 0 < nrows t ->
-  vals (reopen t) = vals t /\ pos_ok (reopen t).
+  0 <= nr -> 0 <= nc ->
+  vals (reopen t) = vals t /\ pos_ok (reopen t) /\ nrows (reopen t) = nrows t /\ ncols (reopen t) = ncols t.
 Proof. exact save_reopen_grid_lemma. Qed.
 Print Assumptions save_reopen_grid.
 
